@@ -241,6 +241,7 @@ def emit_attr_kinds(info: dict) -> str:
 
 # --------------------------------------------------------------------------------------- Capture
 ORDER = {"alias": 0, "freeze": 1, "copy": 1, "deep": 2}
+ARGKIND = ["flat"]  # kind of the caller's object the current classification is about (ndarray/list vs nested list)
 
 
 def compose(first: str, then: str) -> str:
@@ -321,7 +322,8 @@ def classify(e: ast.AST, env: dict) -> str:
         if fname in ("copy", "deepcopy") and isinstance(owner, ast.Name):
             return compose(base, "deep" if fname == "deepcopy" or owner.id in ("np", "numpy") else "copy")
         if fname in ("asarray", "asanyarray", "ascontiguousarray", "atleast_1d") and isinstance(owner, ast.Name):
-            return compose(base, "alias")
+            # an ndarray passes through; a (nested) list is converted into a new array
+            return compose(base, "alias" if ARGKIND[0] == "flat" else "deep")
         return compose(base, "opaque")
     if isinstance(e, (ast.GeneratorExp, ast.ListComp)):
         gen = e.generators[0]
@@ -499,21 +501,23 @@ def capture_ast() -> dict:
             out["arguments(default)"] = compose(m, out.get("AttrTensor", "opaque"))
     V = parse("src/spox/opset/ai/onnx/v17.py")
     for fn in V.body:
-        if isinstance(fn, ast.FunctionDef) and fn.name == "const":
-            out["const"] = compose(_stored_mode(fn, "value", _call_arg({"constant"})), "alias")
         if isinstance(fn, ast.FunctionDef) and fn.name == "constant":
             m = _stored_mode(fn, "value", _call_arg({"maybe"}, argname="value"))
             out["constant(value)"] = compose(compose(m, out.get("Attr.maybe", "opaque")), out.get("AttrTensor", "opaque"))
             m = _stored_mode(fn, "value_ints", _call_arg({"maybe"}, argname="value"))
             out["constant(value_ints)"] = compose(compose(m, out.get("_AttrIterable.maybe", "opaque")), out.get("AttrInt64s", "opaque"))
-    if "const" in out:
-        out["const"] = compose(out["const"], out.get("constant(value)", "opaque"))
     Fu = parse("src/spox/_future.py")
-    for fn in Fu.body:
-        if isinstance(fn, ast.FunctionDef) and fn.name == "initializer":
-            out["_future.initializer"] = compose(
-                _stored_mode(fn, "value", _call_arg({"_initializer", "initializer"})), out.get("initializer", "opaque")
-            )
+    for kind, label in (("flat", "ndarray"), ("nest", "nested list")):
+        ARGKIND[0] = kind
+        for fn in V.body:
+            if isinstance(fn, ast.FunctionDef) and fn.name == "const":
+                m = _stored_mode(fn, "value", _call_arg({"constant"}))
+                out[f"const({label})"] = compose(m, out.get("constant(value)", "opaque"))
+        for fn in Fu.body:
+            if isinstance(fn, ast.FunctionDef) and fn.name == "initializer":
+                m = _stored_mode(fn, "value", _call_arg({"_initializer", "initializer"}))
+                out[f"_future.initializer({label})"] = compose(m, out.get("initializer", "opaque"))
+    ARGKIND[0] = "flat"
     return out
 
 
@@ -544,6 +548,11 @@ def _observe_nest(stored, arg) -> str:
     if any(_share(s, a) for s in items_s for a in arg):
         return "freeze" if isinstance(stored, tuple) else "copy"
     return "deep"
+
+
+def compose_obs(a: str, b: str) -> str:
+    """Two probes of one site: the weaker observation wins."""
+    return a if ORDER.get(a, -1) <= ORDER.get(b, -1) else b
 
 
 def capture_observed() -> dict:
@@ -589,8 +598,12 @@ def capture_observed() -> dict:
     il = [1, 2]
     attempt("constant(value_ints)", lambda: _observe_flat(op.constant(value_ints=il)._op.attrs.value_ints._value, il))
     nested = [[1, 2], [3, 4]]
-    attempt("const", lambda: _observe_nest(op.const(nested)._op.attrs.value._value, nested))
-    attempt("_future.initializer", lambda: _observe_nest(fut.initializer(nested)._op.attrs.value._value, nested))
+    attempt("const(nested list)", lambda: _observe_nest(op.const(nested)._op.attrs.value._value, nested))
+    attempt("_future.initializer(nested list)", lambda: _observe_nest(fut.initializer(nested)._op.attrs.value._value, nested))
+    attempt("const(ndarray)", lambda: _observe_flat(op.const(arr)._op.attrs.value._value, arr))
+    attempt("const(ndarray)", lambda: compose_obs(out["const(ndarray)"], _observe_flat(op.const(arr, arr.dtype)._op.attrs.value._value, arr)))
+    attempt("_future.initializer(ndarray)", lambda: _observe_flat(fut.initializer(arr)._op.attrs.value._value, arr))
+    attempt("_future.initializer(ndarray)", lambda: compose_obs(out["_future.initializer(ndarray)"], _observe_flat(fut.initializer(arr, arr.dtype)._op.attrs.value._value, arr)))
     return out
 
 
@@ -600,7 +613,8 @@ KINDS = {
     "AttrTensor": "flat", "AttrFloat32s": "flat", "AttrInt64s": "flat", "AttrStrings": "flat",
     "AttrTensors": "nest", "_AttrIterable.maybe": "flat", "BaseVars.variadic": "flat",
     "initializer": "flat", "arguments(default)": "flat", "constant(value)": "flat", "constant(value_ints)": "flat",
-    "const": "nest", "_future.initializer": "nest",
+    "const(ndarray)": "flat", "const(nested list)": "nest",
+    "_future.initializer(ndarray)": "flat", "_future.initializer(nested list)": "nest",
 }
 
 
